@@ -21,7 +21,7 @@ from typing import Any
 
 from .. import core
 
-MODULES = ["ESV.Props.C04"]
+MODULES = ["ESV.Props.C04", "ESV.Props.C04Exact"]
 THEOREMS = ["ESV.C04." + t for t in [
     # print -> lex -> read, all values inside the guards, all indents, both quote preferences
     "read_repr_single", "tok_single_exact", "read_repr_fallback", "tok_fallback_exact", "read_repr_multi", "tok_multi_exact",
@@ -30,7 +30,7 @@ THEOREMS = ["ESV.C04." + t for t in [
     "trailing_backslash_counterexample", "backslash_before_delimiting_quote_counterexample",
     "backslash_before_other_quote_counterexample", "backslash_n_counterexample", "cr_ff_counterexample", "backslash_elsewhere_ok",
     "both_triple_quotes_ok", "both_triple_quotes_counterexample", "all_lines_indented_counterexample",
-    "other_linebreak_counterexample", "trailing_blank_line_indent0_counterexample",
+    "other_linebreak_counterexample", "trailing_blank_line_indent0_counterexample", "guard_exact_small",
     # spec side
     "spec_example_single", "spec_example_multi_a", "spec_example_multi_b", "dedent_rules", "multi_keeps_backslash_n", "spec_departures",
     # numbers, position marks, dungeon mode
@@ -39,7 +39,6 @@ THEOREMS = ["ESV.C04." + t for t in [
     "dmode_roundtrip", "dmode_values",
 ]]
 
-SEP_OTHER = "\r\x0b\x0c\x1c\x1d\x1e\x85\u2028\u2029"
 DM = ["DM_CLOSE", "DM_OPEN", "DM_REQUEST", "DM_OPEN_REQUEST"]
 
 
@@ -111,7 +110,29 @@ def string_defects(s: str, indent: int, single: bool) -> list[str]:
     return multi_defects(s, indent)
 
 
-def param_defects(p: dict, indent: int | None) -> list[str]:
+_KEYWORDS: dict[str, set[str]] = {}
+
+
+def grammar_keywords(lang: str | None = None) -> set[str]:
+    """identifier-shaped literals of the generated lexers (read from the repo's .tokens files); lang: exps | ssbs | None = both"""
+    if not _KEYWORDS:
+        import re
+        for key, fn in (("exps", "ExplorerScript.tokens"), ("ssbs", "SsbScript.tokens")):
+            kws: set[str] = set()
+            try:
+                for line in open(os.path.join(core.REPO, "explorerscript", "antlr", fn), encoding="utf-8"):
+                    m = re.match(r"^'([A-Za-z_][A-Za-z0-9_]*)'=\d+$", line.strip())
+                    if m:
+                        kws.add(m.group(1))
+            except OSError:
+                pass
+            _KEYWORDS[key] = kws
+    if lang is None:
+        return _KEYWORDS["exps"] | _KEYWORDS["ssbs"]
+    return _KEYWORDS[lang]
+
+
+def param_defects(p: dict, indent: int | None, lang: str | None = None) -> list[str]:
     """named defect classes the VALUE falls into (empty = the property promises a faithful round trip)"""
     t = p["t"]
     if t == "str":
@@ -123,12 +144,17 @@ def param_defects(p: dict, indent: int | None) -> list[str]:
         return out
     if t == "pos":
         n = p["name"]
-        if any(c in n for c in "'\\\r\n\f"):
+        # the name is printed between single quotes without any escaping
+        if "'" in n or "\n" in n or single_defects(n, "'"):
             return ["posmark_name_needs_escape"]
         return []
     if t == "fixed":
         if p["fract"] == "":
             return ["fixed_empty_fraction"]
+        return []
+    if t == "const":
+        if p["v"] in grammar_keywords(lang):
+            return ["const_name_is_keyword"]
         return []
     return []
 
@@ -227,7 +253,9 @@ def gen_param(r: random.Random, kind: str) -> dict:
         fract = r.choice(["0", "5", "50", "05", "0034", "250", "996"]) if r.random() < 0.5 else gen_digits(r, allow_empty=r.random() < 0.1)
         return {"t": "fixed", "whole": whole, "fract": fract}
     if kind == "const":
-        return {"t": "const", "v": r.choice(["CONST", "$VAR", "$SCENARIO_MAIN", "x", "_a1", "ACTOR_PLAYER", "Z9_", "$a"])}
+        if r.random() < 0.15:
+            return {"t": "const", "v": r.choice(sorted(grammar_keywords()) or ["alias"])}
+        return {"t": "const", "v": r.choice(["CONST", "$VAR", "$SCENARIO_MAIN", "x", "_a1", "ACTOR_PLAYER", "Z9_", "$a", "aliases", "iff", "Positions"])}
     if kind == "str":
         return {"t": "str", "v": gen_string(r)}
     if kind == "lang":
@@ -241,9 +269,9 @@ def gen_param(r: random.Random, kind: str) -> dict:
 
 
 CTX_FOR = {
-    "int": ["arg", "arg2", "case", "dmode", "switchhdr", "casetext_key"],
+    "int": ["arg", "arg2", "case", "dmode", "switchhdr", "casetext_key", "menu2", "casevalue"],
     "fixed": ["arg", "arg2"],
-    "const": ["arg", "arg2", "case", "switchhdr"],
+    "const": ["arg", "arg2", "case", "switchhdr", "menu2", "casevalue"],
     "str": ["arg", "arg2", "menu", "casetext", "defaulttext", "switchhdr"],
     "lang": ["arg", "arg2", "casetext", "defaulttext"],
     "pos": ["arg", "arg2"],
@@ -288,7 +316,7 @@ def oracle_e2e(case: dict, res: dict) -> tuple[str, str] | None:
             fail = f"came back as {json.dumps(res.get('back'), ensure_ascii=True)[:160]}, expected {desc}"
     if fail is None:
         return None
-    kinds = param_defects(p, res.get("indent"))
+    kinds = param_defects(p, res.get("indent"), case["dec"])
     kind = kinds[0] if kinds else f"unclassified_{p['t']}_{case['ctx']}"
     return kind, f"{json.dumps(p, ensure_ascii=True)[:200]} printed in {where}: {fail}"
 
@@ -425,10 +453,6 @@ def _pool_map(pool: core.Pool, fn: str, cases: list, chunk: int, timeout: float)
     return res
 
 
-def py_roundtrip_cases(strings: list[tuple[str, int, bool]], rest: str) -> list[dict]:
-    return [{"k": "rt", "s": s, "indent": i, "single": q, "rest": rest} for s, i, q in strings]
-
-
 def run(run: core.Run) -> int:
     quick = run.tier == "quick"
     r = run.rng
@@ -455,7 +479,7 @@ def run(run: core.Run) -> int:
 
     try:
         # ---------------- strings ------------------------------------------------------------------------------------
-        n_str = 1500 if quick else 40000
+        n_str = 3000 if quick else 40000
         strings = list(CORPUS_STRINGS)
         corpus = os.path.join(core.ROOT, "corpus", "c04.jsonl")
         if os.path.exists(corpus):
@@ -467,9 +491,9 @@ def run(run: core.Run) -> int:
             for indent in (0, 1, 2, 3):
                 for single in (True, False):
                     trip.append((s, indent, single))
-        if quick and len(trip) > 24000:
+        if quick and len(trip) > 30000:
             keep = trip[:len(CORPUS_STRINGS) * 8]
-            trip = keep + r.sample(trip[len(keep):], 24000 - len(keep))
+            trip = keep + r.sample(trip[len(keep):], 30000 - len(keep))
         rest = ", 1);\n"
         ucases = [{"k": "rt", "s": s, "indent": i, "single": q, "rest": rest} for s, i, q in trip]
         ures = _pool_map(pool, "harness.impl_lit:roundtrip_cases", ucases, 2000, 300)
@@ -587,7 +611,7 @@ def run(run: core.Run) -> int:
                     tie(f"correspondence C04/unit: model and implementation disagree on {k}", {"channel": "unit", "case": c, "impl": u, "model": m})
 
         # ---------------- end-to-end: real decompilers + compilers, property oracle -----------------------------
-        n_e2e = 2600 if quick else 60000
+        n_e2e = 7000 if quick else 60000
         e2e: list[dict] = []
         seed_vals = [{"t": "str", "v": s} for s in CORPUS_STRINGS] + [{"t": "lang", "v": [["english", s]]} for s in CORPUS_STRINGS[:30]]
         for p in seed_vals:
@@ -599,8 +623,6 @@ def run(run: core.Run) -> int:
             kind = r.choice(kinds_w)
             p = gen_param(r, kind)
             ctx = r.choice(CTX_FOR[kind])
-            if ctx == "casetext_key":
-                continue
             if ctx == "dmode":
                 p = {"t": "int", "v": r.choice([0, 1, 2, 3])}
             e2e.append({"param": p, "ctx": ctx, "depth": r.choice([0, 0, 1, 2, 3, 4]), "dec": r.choice(["exps", "exps", "ssbs"])})
@@ -616,8 +638,11 @@ def run(run: core.Run) -> int:
             v = oracle_e2e(c, res)
             if v:
                 viol(v[0], v[1], {"channel": "e2e", "case": c, "impl": {k: res.get(k) for k in ("printed", "indent", "back", "comp_err", "dec_err")}})
-            elif param_defects(c["param"], res.get("indent")):
+            elif param_defects(c["param"], res.get("indent"), c["dec"]):
                 stats["e2e"]["defect_class_but_roundtrips"] = stats["e2e"].get("defect_class_but_roundtrips", 0) + 1
+                if stats["e2e"]["defect_class_but_roundtrips"] <= 3:
+                    run.notes.append(f"e2e: value in defect class {param_defects(c['param'], res.get('indent'), c['dec'])[0]} still round-trips: "
+                                     f"{json.dumps(c, ensure_ascii=True)[:300]}")
             # model prediction for strings: print at the indent the decompiler used, lex+read in the real following text
             p = c["param"]
             if p["t"] == "str" and res.get("found") and res.get("indent") is not None:
